@@ -216,7 +216,14 @@ func (w *World) addFile(cf *ContractFile) {
 	w.files = append(w.files, cf)
 	for _, c := range cf.Contracts {
 		key := c.Key
-		if c.PkgPath != "" {
+		if strings.HasPrefix(c.Key, "iface ") && c.PkgPath != "" {
+			// interface method: "iface T.M" -> types.Func.FullName()
+			tm := strings.TrimSpace(strings.TrimPrefix(c.Key, "iface "))
+			if i := strings.Index(tm, "."); i > 0 {
+				key = "(" + c.PkgPath + "." + tm[:i] + ")." + tm[i+1:]
+				c.Assumed = true
+			}
+		} else if c.PkgPath != "" {
 			key = c.PkgPath + "::" + c.Key
 		}
 		w.contracts[key] = c
